@@ -35,8 +35,17 @@ def run(ctx):
     vf.absorb(ctx, rw)
     if rw['steps'] != len(vecs):
         raise vf.Inconclusive('write driver ran %d of %d vectors' % (rw['steps'], len(vecs)))
+    # header blocks through ReadMetaHeaders: every history of H2Meta.tla on one Framer
+    mdump = os.path.join(ctx.scratch, 'c19m')
+    ctx.tlc('H2Meta', 'MC_C19_meta%s.cfg' % ('_thorough' if t == 'thorough' else ''), dump=mdump, label='header blocks across a connection (H2Meta)')
+    mstates = tlaval.parse_dump(mdump + '.dump')
+    mvin = os.path.join(ctx.scratch, 'c19m.json')
+    vf.write_graph([{'hist': s['hist'], 'table': s['table'], 'out': s['out']} for s in mstates], mvin)
+    rm = vf.run_overlay_driver(ctx, 'pkg/http2', FILES, '^TestVFC19Meta$', env={'VF_VECTORS': mvin}, out_name='c19m_out.json')
+    vf.absorb(ctx, rm)
     cov = {
-        'traces_validated_against_impl': sum(r['steps'] for r in reads) + rw['steps'],
+        'traces_validated_against_impl': sum(r['steps'] for r in reads) + rw['steps'] + rm['paths'],
+        'meta_header_histories': rm['paths'], 'meta_header_blocks_by_kind': rm['actions'],
         'samples': (reads[0].get('samples') or [])[:3] + (rw.get('samples') or [])[:2],
         'exhaustive': True,
         'read_edges_replayed': total_edges, 'read_by_type': reads[0]['actions'],
@@ -49,4 +58,4 @@ def run(ctx):
     }
     return ctx.finish(cov, assumptions=['the harness frame serializer is trusted', 'ShortPrefix (PADDED/PRIORITY prefix cut short -> io.ErrUnexpectedEOF) is a named deviation, accepted',
                                         'purely random byte strings are not a TLA+ notion: modelled malformation families are exhaustive, bit flips are sampled',
-                                        'header-block (HPACK / meta-header) validity is exercised by C13, not here'])
+                                        'HPACK decoding itself is C18; here the Framer-level treatment of header blocks in sequence (H2Meta.tla)'])
